@@ -1516,7 +1516,7 @@ func (interp *Interpreter) cfg(root *node, sc *scope, importPath, pkgName string
 			init, body := n.child[0], n.child[1]
 			n.start = init.start
 			init.tnext = body.start
-			body.tnext = n.start
+			body.tnext = body.start // the init statement is executed once
 			sc = sc.pop()
 
 		case forStmt2: // for cond {}
